@@ -81,7 +81,12 @@ func ServerTable() []ServerEntry {
 		{"electricpb.ModelServer", viaRegister(func() registerer { return electricpb.NewModelServer(electricpb.NewModel()) })},
 		{"emergencypb.MemoryDevice", viaRegister(func() registerer { return emergencypb.NewMemoryDevice() })},
 		{"energystoragepb.ModelServer", viaRegister(func() registerer { return energystoragepb.NewModelServer(energystoragepb.NewModel()) })},
-		{"enterleavesensorpb.ModelServer", viaRegister(func() registerer { return enterleavesensorpb.NewModelServer(enterleavesensorpb.NewModel()) })},
+		{"enterleavesensorpb.ModelServer", viaRegister(func() registerer {
+			// events only enter through the model (there is no RPC for it): start with one that names an occupant
+			m := enterleavesensorpb.NewModel()
+			_ = m.CreateEnterLeaveEvent(&traits.EnterLeaveEvent{Direction: traits.EnterLeaveEvent_ENTER, Occupant: &traits.EnterLeaveEvent_Occupant{Name: "visitor", Title: "Visitor"}})
+			return enterleavesensorpb.NewModelServer(m)
+		})},
 		{"fanspeedpb.ModelServer", viaRegister(func() registerer { return fanspeedpb.NewModelServer(fanspeedpb.NewModel()) })},
 		{"hailpb.ModelServer", viaRegister(func() registerer { return hailpb.NewModelServer(hailpb.NewModel()) })},
 		{"lightpb.ModelServer", viaRegister(func() registerer {
